@@ -54,7 +54,7 @@ SENTINEL = b'DECOY-SENTINEL'
 
 def shards(tier):
     q = tier == 'quick'
-    return [{'kind': 'pty', 'n': 20 if q else 300} for _ in range(12)] + [{'kind': 'fdsock', 'n': 150 if q else 2000} for _ in range(4)]
+    return [{'kind': 'pty', 'n': 45 if q else 300} for _ in range(12)] + [{'kind': 'fdsock', 'n': 400 if q else 2000} for _ in range(4)]
 
 
 # ---------------------------------------------------------------------------
